@@ -562,6 +562,78 @@ def rule_g(R, ctx):
     R.floor("C19.g", "plain calls next to a _with_attributes sibling", n, 2)
 
 
+def rule_h(R, ctx):
+    FFI = ctx.yffi
+    R.rule("C19.h", "R-TABLE input cell kind -> nested type: in <YInput as Prelim>::into_content every TypeRef variant is built under "
+                    "exactly one tag value, and that value is the Y_<KIND> constant whose name matches the variant (Y_MAP -> Map, "
+                    "Y_ARRAY -> Array, Y_TEXT -> Text, Y_XML_TEXT -> XmlText, Y_XML_ELEM -> XmlElement, Y_XML_FRAG -> XmlFragment, "
+                    "Y_WEAK_LINK -> WeakLink): a nested value created through the C API has the type the same call creates natively")
+    fn = FFI.fn("<yffi::YInput as yrs::block::Prelim>::into_content")
+    v = FnView(fn)
+    byval = {}
+    for k, c in FFI.consts.items():
+        nm = k.rsplit("::", 1)[-1]
+        if nm.startswith("Y_") and isinstance(c.get("v"), int) and c["v"] > 0 and c.get("ty") == "i8" and not nm.startswith(("Y_OFFSET", "Y_SKIP", "Y_AUTO", "Y_SHOULD", "Y_CLEANUP", "Y_KIND", "Y_TRUE", "Y_FALSE", "Y_EVENT", "Y_CHANGE")):
+            byval.setdefault(c["v"], []).append(nm)
+    n = 0
+    seen = {}
+    for i, j, st in fn.stmts():
+        rv = st["rv"]
+        if "agg" in rv and str(rv["agg"].get("adt", "")).endswith("TypeRef") and rv["agg"].get("variant"):
+            var = rv["agg"]["variant"]
+            vals = [l.polarity[1] for l in v.guards(i) if isinstance(l.polarity, tuple) and l.polarity[0] == "eq" and
+                    term_has_field(l.term, "YInput.tag")]
+            n += 1
+            names = [x for val in vals for x in byval.get(val, [])]
+            norm = lambda s_: s_.lower().replace("y_", "", 1).replace("_", "")
+            match = [x for x in names if norm(x).startswith(var.lower()[:len(norm(x))]) and var.lower().startswith(norm(x)[:4])]
+            ok = len(vals) == 1 and bool(match)
+            seen[var] = (vals, names)
+            R.ob("C19.h", fn, "tag:" + var, ok,
+                 "TypeRef::%s under tag %s" % (var, names) if ok else
+                 "TypeRef::%s is built under tag value(s) %s = %s: expected exactly one tag, the Y_* constant of the same kind" % (var, vals, names),
+                 "%s:%s" % (fn.file, st["line"]))
+    R.floor("C19.h", "TypeRef variants built in into_content", n, 7)
+
+
+OUT_TAGS = {
+    "&[u8]": "Y_JSON_BUF", "&[yrs::Any]": "Y_JSON_ARR", "&std::collections::HashMap<std::string::String, yrs::Any>": "Y_JSON_MAP",
+    "&str": "Y_JSON_STR", "bool": "Y_JSON_BOOL", "f64": "Y_JSON_NUM", "i64": "Y_JSON_INT", "yrs::ArrayRef": "Y_ARRAY", "yrs::Doc": "Y_DOC",
+    "yrs::MapRef": "Y_MAP", "yrs::TextRef": "Y_TEXT", "yrs::WeakRef<yrs::branch::BranchPtr>": "Y_WEAK_LINK",
+    "yrs::XmlElementRef": "Y_XML_ELEM", "yrs::XmlFragmentRef": "Y_XML_FRAG", "yrs::XmlTextRef": "Y_XML_TEXT",
+    "yrs::branch::BranchPtr": "Y_UNDEFINED",
+}
+
+
+def rule_i(R, ctx):
+    FFI = ctx.yffi
+    R.rule("C19.i", "R-TABLE output cell tags: every `impl From<T> for YOutput` that builds a cell sets the Y_* tag of its own source "
+                    "type T (TextRef -> Y_TEXT, XmlTextRef -> Y_XML_TEXT, ... frozen table of 16 conversions, names agree)")
+    n = 0
+    for p, fn in sorted(FFI.fns.items()):
+        m = re.match(r"<yffi::YOutput as std::convert::From<(.+)>>::from$", p)
+        if not (m and fn.mir):
+            continue
+        src = m.group(1)
+        v = FnView(fn)
+        tags = []
+        for i, j, st in fn.stmts():
+            rv = st["rv"]
+            if "agg" in rv and str(rv["agg"].get("adt", "")).endswith("YOutput") and rv["agg"].get("fields"):
+                for f, o in zip(rv["agg"]["fields"], rv["ops"]):
+                    if f == "tag":
+                        t = simp(v.terms.operand(o, 6))
+                        tags.append(str(t[2]).rsplit("::", 1)[-1] if t[0] == "const" and len(t) > 2 and t[2] else sshow(t, 3))
+        if not tags:
+            continue  # delegates to another conversion
+        n += 1
+        want = OUT_TAGS.get(src)
+        R.ob("C19.i", fn, "tag", want is not None and set(tags) == {want},
+             "From<%s> sets %s" % (src, sorted(set(tags))) if want is not None and set(tags) == {want} else
+             "From<%s> sets tag %s, expected %s" % (src, sorted(set(tags)), want))
+    R.floor("C19.i", "YOutput conversions that set a tag", n, 16)
+
+
 def check(ctx, R):
     holder = {}
     R.run("C19.a", lambda R, c: holder.setdefault("h", rule_a(R, c)), ctx)
@@ -570,6 +642,8 @@ def check(ctx, R):
     R.run("C19.e", rule_e, ctx)
     R.run("C19.f", rule_f, ctx)
     R.run("C19.g", rule_g, ctx)
+    R.run("C19.h", rule_h, ctx)
+    R.run("C19.i", rule_i, ctx)
     if "h" in holder:
         R.run("C19.d", rule_d, ctx, holder["h"])
     return {}
